@@ -83,6 +83,10 @@ def check(ctx):
     en = pm.func("Profiler.__enter__")
     ok = bool(find("self.clear()", en)) and bool(find("self._results.clear()", cl))
     ctx.ob("PAIR.profiler.reset", en, "entering the profiler clears earlier results", ok)
+    # ---------------- the profiler/cache see exactly what the callback protocol delivers: C05's rules are part of this
+    from . import C05
+
+    C05.check(ctx)
 
 
 VARIANTS = [
